@@ -766,9 +766,20 @@ func solveAll(sc *smtScript, obs []*Obligation, opts solveOpts) {
 				settled = true
 			}
 		}
-		if len(again) > 0 && len(again) <= 6 && !settled && machineBusy() {
+		if lf := loadFactor(); len(again) > 0 && len(again) <= 12 && !settled && lf > 0.75 {
 			o2 := opts
-			o2.timeoutS = opts.timeoutS * 2
+			// wall-clock budgets shrink with the share of a CPU a solver gets: scale the second try with the load
+			mult := int(2*lf + 0.5)
+			if mult < 2 {
+				mult = 2
+			}
+			if mult > 6 {
+				mult = 6
+			}
+			o2.timeoutS = opts.timeoutS * mult
+			if lim := max(90, opts.timeoutS*2); o2.timeoutS > lim {
+				o2.timeoutS = lim
+			}
 			o2.par = 3
 			o2.noRetry = true
 			for _, ob := range again {
@@ -995,18 +1006,21 @@ func sexprPairs(s string) [][2]string {
 
 // machineBusy: the 1-minute load average exceeds three quarters of the CPUs — solver budgets measured in wall-clock
 // seconds are then not comparable with an idle machine's, and an undecided obligation deserves a second, longer try.
-func machineBusy() bool {
+func machineBusy() bool { return loadFactor() > 0.75 }
+
+// loadFactor: 1-minute load average per CPU (1 when it cannot be read).
+func loadFactor() float64 {
 	b, err := os.ReadFile("/proc/loadavg")
 	if err != nil {
-		return true
+		return 1
 	}
 	f := strings.Fields(string(b))
 	if len(f) == 0 {
-		return true
+		return 1
 	}
 	l, err := strconv.ParseFloat(f[0], 64)
 	if err != nil {
-		return true
+		return 1
 	}
-	return l > 0.75*float64(runtime.NumCPU())
+	return l / float64(runtime.NumCPU())
 }
